@@ -1130,6 +1130,12 @@ class Dynamo0p3ColourTrans(ColourTrans):
             raise TransformationError("Cannot have a loop over colours "
                                       "within an OpenMP parallel region.")
 
+        # Likewise, the loop over colours must not become the target of
+        # (or be nested within the target of) an OpenACC loop directive.
+        if node.ancestor(ACCLoopDirective):
+            raise TransformationError("Cannot have a loop over colours "
+                                      "within an OpenACC loop directive.")
+
         super().apply(node, options=options)
 
     def _create_colours_loop(self, node):
